@@ -1,5 +1,5 @@
 // C46: interpret file-system operation sequences on the real plugin (src/plugins/file_system/s4u_FileSystem.cpp).
-// usage: xbt2_fs_drv <scratch-dir>
+// usage: xbt2_fs_drv <scratch-dir> [multi]
 // one case per input line:  cap nfiles (path size)*  (code slot a b)*
 //   code 0 open(slot,path a)  1 write(slot, n=a, write_inside=b)  2 read(slot,n=a)  3 seek(slot, off=a, origin=b)
 //        4 move(slot, path a; a<0 = a path outside the mount point)  5 File::unlink(slot)  6 close(slot)
@@ -8,6 +8,12 @@
 // Each case runs in a forked child (one Engine per process): one actor on a host with one disk mounted on /scratch
 // whose initial content and capacity come from the case (platform XML + content file written to the scratch dir;
 // the content file is named relatively: it is searched next to the platform file).
+// multi mode (2nd argument "multi"): several actors on the one disk, their operations aligned on the same simulated dates.
+//   case line: cap nfiles (path size)*  nact  then rounds of nact quadruples (code slot a b), one per actor;
+//   code%10 as above, 7 = idle in this round; code/10 = number of this_actor::yield() before the operation (shifts the
+//   actor's segments by that many scheduling sub-rounds).  Slots are private to each actor.
+//   Round r: every actor does sleep_until(1000(r+1)) then its operation; an auditor actor wakes at 1000(r+1)+500 and
+//   prints  "R used total" followed by "res hsize pos" per actor (res -4 -1 -1 when idle); at the end "C (path size)*".
 #include "drv.hpp"
 #include <simgrid/plugins/file_system.h>
 #include <simgrid/s4u.hpp>
@@ -97,6 +103,82 @@ static void actor(std::vector<long long> v, size_t i)
   fflush(stdout);
 }
 
+struct Round {
+  std::vector<std::string> rec;
+};
+
+static void mactor(int id, int nact, std::vector<long long> v, size_t i0, int nrounds, std::vector<Round>* rounds)
+{
+  std::map<long long, sg4::File*> slots;
+  for (int r = 0; r < nrounds; r++) {
+    sg4::this_actor::sleep_until(1000.0 * (r + 1));
+    size_t i        = i0 + 4 * ((size_t)r * nact + id);
+    long long code = v[i] % 10, yields = v[i] / 10, slot = v[i + 1], a = v[i + 2], b = v[i + 3];
+    if (code == 7) {
+      (*rounds)[r].rec[id] = "-4 -1 -1";
+      continue;
+    }
+    for (long long k = 0; k < yields; k++)
+      sg4::this_actor::yield();
+    auto it      = slots.find(slot);
+    sg4::File* f = it == slots.end() ? nullptr : it->second;
+    long long res = -2;
+    if (code == 0) {
+      if (not f) {
+        f           = sg4::File::open(pname(a), nullptr);
+        slots[slot] = f;
+        res         = 0;
+      }
+    } else if (f) {
+      switch (code) {
+        case 1:
+          res = (long long)f->write((sg_size_t)a, b != 0);
+          break;
+        case 2:
+          res = (long long)f->read((sg_size_t)a);
+          break;
+        case 3:
+          f->seek((sg_offset_t)a, (int)b);
+          res = 0;
+          break;
+        case 4:
+          f->move(pname(a));
+          res = 0;
+          break;
+        case 5:
+          res = f->unlink();
+          break;
+        default:
+          f->close();
+          slots.erase(slot);
+          res = 0;
+      }
+    }
+    f = slots.count(slot) ? slots[slot] : nullptr;
+    (*rounds)[r].rec[id] = std::to_string(res) + " " + std::to_string(f ? (long long)f->size() : -1LL) + " " +
+                           std::to_string(f ? (long long)f->tell() : -1LL);
+  }
+}
+
+static void auditor(int nact, int nrounds, std::vector<Round>* rounds)
+{
+  const sg4::Disk* disk = sg4::Host::current()->get_disks().front();
+  auto* ext             = disk->extension<sg4::FileSystemDiskExt>();
+  for (int r = 0; r < nrounds; r++) {
+    sg4::this_actor::sleep_until(1000.0 * (r + 1) + 500);
+    printf("R %llu %llu ", sg_disk_get_size_used(disk), total_of(ext->get_content()));
+    for (int k = 0; k < nact; k++)
+      printf("%s ", (*rounds)[r].rec[k].empty() ? "-9 -9 -9" : (*rounds)[r].rec[k].c_str());
+    fflush(stdout);
+  }
+  printf("C");
+  for (auto const& [p, s] : *ext->get_content())
+    printf(" %s %llu", p.c_str() + 2, s);
+  fflush(stdout);
+}
+
+static bool multi_mode = false;
+
 static int run_case(const std::string& dir, const std::vector<long long>& v)
 {
   size_t i        = 0;
@@ -125,7 +207,18 @@ static int run_case(const std::string& dir, const std::vector<long long>& v)
   sg4::Engine e(&argc, argv.data());
   sg_storage_file_system_init();
   e.load_platform(pfn);
-  e.host_by_name("bob")->add_actor("prog", actor, v, i);
+  std::vector<Round> rounds;
+  if (multi_mode) {
+    int nact    = (int)v.at(i++);
+    int nrounds = nact > 0 ? (int)((v.size() - i) / (4 * (size_t)nact)) : 0;
+    rounds.resize(nrounds);
+    for (auto& r : rounds)
+      r.rec.resize(nact);
+    for (int k = 0; k < nact; k++)
+      e.host_by_name("bob")->add_actor("prog" + std::to_string(k), mactor, k, nact, v, i, nrounds, &rounds);
+    e.host_by_name("bob")->add_actor("audit", auditor, nact, nrounds, &rounds);
+  } else
+    e.host_by_name("bob")->add_actor("prog", actor, v, i);
   e.run();
   return 0;
 }
@@ -133,6 +226,7 @@ static int run_case(const std::string& dir, const std::vector<long long>& v)
 int main(int argc, char** argv)
 {
   std::string dir = argc > 1 ? argv[1] : "/tmp";
+  multi_mode      = argc > 2 && std::string(argv[2]) == "multi";
   std::vector<long long> v;
   while (drv::next_case(v)) {
     fflush(stdout);
